@@ -261,7 +261,14 @@ def b_double(f):
 
 
 def b_items(k, f):
-    return f.rename(k + '!')
+    return f.rename(repr(k) + '!')
+
+
+def b_items_fail_empty_label(k, f):
+    # uses the label it is handed: the Frame labelled '' fails, the others record the label they received
+    if k == '':
+        raise ValueError('empty label')
+    return f.rename(repr(k) + '!')
 
 
 def b_fail_second(f):
@@ -288,6 +295,8 @@ BATCH_CASES = [
     ('apply_except', lambda b: b.apply_except(b_fail_second, ValueError), False),
     ('apply_except other exception type', lambda b: b.apply_except(b_fail_second, KeyError), True),
     ('apply_items_except', lambda b: b.apply_items_except(lambda k, f: b_fail_second(f), ValueError), False),
+    ('apply_items_except label-aware', lambda b: b.apply_items_except(b_items_fail_empty_label, ValueError), False),
+    ('apply_items label-aware', lambda b: b.apply_items(lambda k, f: f.rename(repr(k) + '!')), False),
 ]
 
 
@@ -301,6 +310,16 @@ def run_batch(case, ctx):
             # repeated Batch labels (unnamed Frames all carry the label None; explicit repeats): one result per input, in input order
             fr_ = b_frames(3)
             b = sf.Batch(iter([('L', fr_[0]), ('M', fr_[1]), ('L', fr_[2])]), max_workers=workers, chunksize=chunk, use_threads=threads)
+        elif n == 'falsy':
+            # falsy labels (0, '', None) that differ from the Frames' names: the function receives the label, not the name
+            b = sf.Batch(iter(zip((0, '', None), b_frames(3))), max_workers=workers, chunksize=chunk, use_threads=threads)
+        elif n == 'grown-go':
+            # grow-only members whose last column was added after construction and never read since (as handed to a worker of a process pool)
+            def grown(f):
+                g = f[['p']].to_frame_go()
+                g['q'] = f['q'].values
+                return g
+            b = sf.Batch.from_frames([grown(f) for f in b_frames(3)], max_workers=workers, chunksize=chunk, use_threads=threads)
         elif n == 'unnamed':
             b = sf.Batch.from_frames([f.rename(None) for f in b_frames(3)], max_workers=workers, chunksize=chunk, use_threads=threads)
         elif n < 0:
@@ -310,7 +329,7 @@ def run_batch(case, ctx):
             b = sf.Batch.from_frames(b_frames(n), max_workers=workers, chunksize=chunk, use_threads=threads)
         r = fn(b)
         return tuple((k, snap(v)) for k, v in r.items())
-    for n in (3, -3, 'dup', 'unnamed', 4) if tier != 'quick' else (3, -3, 'dup', 'unnamed'):
+    for n in (3, -3, 'dup', 'unnamed', 'falsy', 'grown-go', 4) if tier != 'quick' else (3, -3, 'dup', 'unnamed', 'falsy', 'grown-go'):
         seq = outcome(lambda: run(None, 1, False, n))
         if must_raise and seq[0] != 'raises':
             ctx.violation(f'batch|{name}|sequential-does-not-raise', got=repr(seq)[:300])
